@@ -1,112 +1,25 @@
 package workqueue_test
 
-// C37 - Work queues run each accepted task exactly once (part: BoundedWorkerQueue).
+// C37 - part: BoundedWorkerQueue (direct worker goroutines).
 
 import (
-	"context"
-	"errors"
-	"fmt"
-	"testing"
-
-	"github.com/WuKongIM/WuKongIM/pkg/workqueue"
 	"github.com/WuKongIM/WuKongIM/pkg/zzverif/ev"
-	"github.com/WuKongIM/WuKongIM/pkg/zzverif/vsched"
-	"github.com/WuKongIM/WuKongIM/pkg/zzverif/vsync"
 )
 
-type c37Rec struct {
-	admitted map[int]bool
-	rejected map[int]bool
-	ran      map[int]int
-	closeRet bool
-	ranAfterClose int
-	closeErr error
-}
-
-func c37WorkerQueue(name string, workers, qsize, producers, perProducer int, bound int) vsched.Scenario {
-	return vsched.Scenario{
-		Name: name, Property: "C37", Bound: bound, Horizon: 6000, Delay: true,
-		Bounds: map[string]any{"workers": workers, "queue_size": qsize, "producers": producers, "tasks_per_producer": perProducer},
-		Body: func(x *vsched.Exec) {
-			rec := &c37Rec{admitted: map[int]bool{}, rejected: map[int]bool{}, ran: map[int]int{}}
-			x.Data["rec"] = rec
-			q, err := workqueue.NewBoundedWorkerQueue[int](workqueue.BoundedWorkerQueueConfig{Workers: workers, QueueSize: qsize},
-				func(_ context.Context, item int) error {
-					rec.ran[item]++
-					if rec.closeRet {
-						rec.ranAfterClose++
-					}
-					return nil
-				})
-			if err != nil {
-				panic(err)
-			}
-			var wg vsync.WaitGroup
-			for p := 0; p < producers; p++ {
-				p := p
-				wg.Add(1)
-				vsched.GoNamed(fmt.Sprintf("producer%d", p), func() {
-					defer wg.Done()
-					for i := 0; i < perProducer; i++ {
-						id := p*10 + i
-						err := q.Submit(context.Background(), id)
-						switch {
-						case err == nil:
-							rec.admitted[id] = true
-						case errors.Is(err, workqueue.ErrFull), errors.Is(err, workqueue.ErrClosed):
-							rec.rejected[id] = true
-						default:
-							panic(err)
-						}
-					}
-				})
-			}
-			wg.Add(1)
-			vsched.GoNamed("closer", func() {
-				defer wg.Done()
-				rec.closeErr = q.Close(context.Background())
-				rec.closeRet = true
-			})
-			wg.Wait()
-			for _, id := range vsched.SortedKeys(rec.admitted) {
-				x.Log("admitted:%d ran:%d", id, rec.ran[id])
-			}
-			for _, id := range vsched.SortedKeys(rec.rejected) {
-				x.Log("rejected:%d", id)
-			}
-		},
-		Check: func(x *vsched.Exec) error {
-			rec := x.Data["rec"].(*c37Rec)
-			for id := range rec.admitted {
-				if rec.ran[id] != 1 {
-					return vsched.Violatef("C37:workerqueue-admitted-task-ran-not-once", "admitted task %d ran %d times", id, rec.ran[id])
-				}
-			}
-			for id := range rec.rejected {
-				if rec.ran[id] != 0 {
-					return vsched.Violatef("C37:workerqueue-rejected-task-ran", "rejected task %d ran %d times", id, rec.ran[id])
-				}
-			}
-			if rec.closeErr != nil {
-				return vsched.Violatef("C37:workerqueue-close-error", "Close with a background context returned %v", rec.closeErr)
-			}
-			if rec.ranAfterClose > 0 {
-				return vsched.Violatef("C37:workerqueue-close-returned-before-admitted-work", "%d tasks ran after Close returned", rec.ranAfterClose)
-			}
-			return nil
-		},
+func c37WQSpecs(r *ev.R) []c37Spec {
+	b2 := ev.Pick(r, 3, 4)
+	b3 := ev.Pick(r, 3, 5)
+	d := "workerqueue"
+	specs := []c37Spec{
+		{Name: "wq-w1-q1-submit-abc", Driver: d, Workers: 1, QSize: 1, Order: "abc", Bound: b3},
+		{Name: "wq-w2-q2-submit-cab-latency", Driver: d, Workers: 2, QSize: 2, Order: "cab", Latency: true, Bound: b2},
+		{Name: "wq-w1-q2-submit-acb-closeafter1", Driver: d, Workers: 1, QSize: 2, Order: "acb", CloseAfter: 1, Latency: true, Bound: b2},
+		{Name: "wq-w1-q1-wait-abc", Driver: d, Workers: 1, QSize: 1, Wait: true, Order: "abc", Bound: b3},
+		{Name: "wq-w2-q1-wait-bca-closeafter2", Driver: d, Workers: 2, QSize: 1, Wait: true, Order: "bca", CloseAfter: 2, Latency: true, Bound: b2},
+		{Name: "wq-w1-q1-wait-subtimeout", Driver: d, Workers: 1, QSize: 1, Wait: true, Order: "abc", SubCtx: "timeout", Latency: true, Bound: b2},
+		{Name: "wq-w1-q2-submit-subcancelled", Driver: d, Workers: 1, QSize: 2, Order: "bac", SubCtx: "cancelled", Bound: b2},
+		{Name: "wq-w1-q2-submit-close-expired", Driver: d, Workers: 1, QSize: 2, Order: "abc", CloseCtx: "expired", Latency: true, Bound: b2},
+		{Name: "wq-w1-q1-wait-close-timeout", Driver: d, Workers: 1, QSize: 1, Wait: true, Order: "acb", CloseCtx: "timeout", Latency: true, Bound: b2},
 	}
-}
-
-func TestVerifC37(t *testing.T) {
-	r := ev.Start(t, "C37")
-	defer r.Finish()
-	bound := ev.Pick(r, 3, 5)
-	st := vsched.Explore(r, c37WorkerQueue("worker-queue-w1-q1", 1, 1, 2, 2, bound))
-	st2 := vsched.Explore(r, c37WorkerQueue("worker-queue-w2-q2", 2, 2, 2, 2, bound))
-	if r.Replay() != nil {
-		return
-	}
-	r.Guard("executions", st.Executions+st2.Executions >= 100, "executions=%d", st.Executions+st2.Executions)
-	r.Guard("outcomes", st.Outcomes >= 3, "distinct outcomes=%d", st.Outcomes)
+	return specs
 }
